@@ -339,6 +339,23 @@ class Peer:
         self._neighbor = restart_neighbor
         self._delay.reset()
 
+    def apply_pending_reload(self) -> None:
+        """Apply the difference of a reload which is still waiting for its turn of the peer loop.
+
+        Called by the reactor BEFORE it reads the configuration again (two reloads in a row): the routes of the new
+        file are queued while it is parsed, against what the RIB holds at that time. With the previous difference
+        still pending, a route which that one removed was never withdrawn (the next difference starts from it), and
+        one it removed and the new file brings back was skipped as a duplicate, then withdrawn.
+        """
+        pending = self._neighbor
+        if pending is None or pending.previous is None or not self.neighbor.rib:
+            return
+        self.neighbor.rib.outgoing.replace_reload(pending.previous.routes, pending.routes)
+        pending.previous = None
+        if pending is self.neighbor:
+            # installed by reconfigure() already: nothing is left for the peer loop to do
+            self._neighbor = None
+
     def reconfigure(self, restart_neighbor: 'Neighbor' | None = None) -> None:
         if restart_neighbor and not self._restart:
             # removed by the previous reload (stop() cleared _restart, the task has not ended yet) and put back by
@@ -347,13 +364,6 @@ class Peer:
             self.reestablish(restart_neighbor)
             return
         # we want to update the route which were in the configuration file
-        if restart_neighbor and self._neighbor is not None and self.neighbor.rib:
-            # a reload is still waiting for its turn of the peer loop (two reloads in a row): apply its difference
-            # now. Overwritten, the routes it removed were never withdrawn (the next difference starts from it).
-            pending = self._neighbor
-            previous = pending.previous.routes if pending.previous else []
-            self.neighbor.rib.outgoing.replace_reload(previous, pending.routes)
-            pending.previous = None
         self._neighbor = restart_neighbor
         # Update self.neighbor immediately so API processes see the new configuration
         # during RELOAD (SIGUSR1), not just during connection reset
